@@ -22,6 +22,23 @@ fl = env.fl
 ULP_REL = 1e-12
 
 
+def degrees_close_not_equal(a_deg: list, b_deg: list, r: int, k: int) -> bool:
+    """True iff the activation degrees behind two differing fuzzy-value strings agree within the declared
+    last-bit allowance and at least one differs (then the 3-decimal print may legitimately differ: a 1-ulp
+    difference of a degree of magnitude 1e19, or one at a rounding boundary of the third decimal)."""
+    if len(a_deg) != len(b_deg):
+        return False
+    differs = False
+    for (n, av), (m, bv) in zip(a_deg, b_deg):
+        if n != m or len(av) != k or len(bv) != 1:
+            return False
+        if av[r] != bv[0]:
+            if not close_enough((av[r],), bv, ULP_REL):
+                return False
+            differs = True
+    return differs
+
+
 def exc_site(e: BaseException) -> str:
     tb = e.__traceback__
     last = None
@@ -48,7 +65,7 @@ class C02(Sim):
     assumptions = [
         "Function terms that read an output variable's value are excluded (the replicas differ by construction there)",
         "a size-1 value / fuzzy value on the batch side stands for every row of the segment (NumPy broadcasting; observation D4)",
-        f"relative differences <= {ULP_REL} are tolerated and counted (probe ulp_noise); expected 0 on this machine",
+        f"relative differences <= {ULP_REL} of values and of printed fuzzy-value degrees (or one unit of the 3rd printed decimal) are tolerated and counted (probes ulp_noise, ulp_noise_fuzzy): NumPy's scalar and array loops of pow differ in the last bit for some arguments",
         "previous_value is not compared (legitimately differs between a k-row batch and k single rows)",
     ]
     real_vs_stub = {"both replicas: Engine, variables, terms, norms, hedges, rules, activation, defuzzifiers": "real",
@@ -227,6 +244,7 @@ class C02(Sim):
                 ea = e
             b_vals: list[list[tuple]] = []
             b_fuz: list[list[tuple]] = []
+            b_deg: list[list[list]] = []
             for r in range(k):
                 try:
                     for c, iv in enumerate(B.input_variables):
@@ -237,6 +255,7 @@ class C02(Sim):
                     break
                 b_vals.append([cv(ov.value) for ov in B.output_variables])
                 b_fuz.append([cs(ov.fuzzy_value()) for ov in B.output_variables])
+                b_deg.append([[(a.term.name, cv(a.degree)) for a in ov.fuzzy.terms] for ov in B.output_variables])
             after_restart = False
             if (ea is None) != (eb is None):
                 e = ea or eb
@@ -263,6 +282,7 @@ class C02(Sim):
                     continue
                 a_val = bcast(cv(ov.value), k)
                 a_fuz = bcast(cs(ov.fuzzy_value()), k)
+                a_deg_j = [(a.term.name, bcast(cv(a.degree), k)) for a in ov.fuzzy.terms]
                 if len(a_val) != k or len(a_fuz) != k:
                     viol = Violation("batch_output_has_wrong_length", i, output=j, rows=k, got=len(a_val))
                     break
@@ -279,9 +299,13 @@ class C02(Sim):
                                              single=bv[0], setter=setter, defuzzifier=sp["outputs"][j]["defuzzifier"]["cls"])
                             break
                     if a_fuz[r] != bf[0]:
-                        viol = Violation("batch_fuzzy_value_differs_from_row", i, output=j, row=r, rows=k, batch=a_fuz[r],
-                                         single=bf[0], setter=setter)
-                        break
+                        # the printed fuzzy value may differ only where the underlying degrees differ in the last bit
+                        if degrees_close_not_equal(a_deg_j, b_deg[r][j], r, k):
+                            st.hit("probes.ulp_noise_fuzzy")
+                        else:
+                            viol = Violation("batch_fuzzy_value_differs_from_row", i, output=j, row=r, rows=k, batch=a_fuz[r],
+                                             single=bf[0], setter=setter)
+                            break
                 if viol:
                     break
                 line.append(",".join(a_val))
